@@ -18,5 +18,12 @@ mkdir -p "$root"; cp -r "$here/harness" "$here/known_findings.json" "$root/"; mk
 [ -x "$here/bin/gosym" ] || (cd "$here/engine" && GOFLAGS=-mod=mod GOPROXY=off GOSUMDB=off GOTOOLCHAIN=local go build -o ../bin/gosym ./cmd/gosym)
 VERIF_ROOT="$root" VERIF_REPO="$wt" "$here/bin/gosym" check "$prop" --tier "$tier" --seed "${VERIF_SEED:-1}" > "$root/run.out" 2>&1; code=$?
 grep -E '^(VIOLATION|KNOWN-FINDING|INCONCLUSIVE|HOLDS|VIOLATED)' "$root/run.out" | cut -c1-400 | head -12
+python3 - "$root/out/$prop" <<'PY'
+import json,glob,sys,collections
+c=collections.Counter()
+for f in glob.glob(sys.argv[1]+'/cex-*.json'):
+    d=json.load(open(f)); c[(d.get('harness'),d.get('assertion'))]+=1
+for (h,a),n in sorted(c.items()): print(f"  failing: {h} {a} x{n}")
+PY
 echo "exit=$code"
 exit $code
